@@ -192,8 +192,20 @@ def catalogue_events(ctx, rng):
         ev['in_range'] = bool(y0 in op.range)
         ev['x_same'] = xbytes(op.domain, x) == xb
         try:
+            # history: the caller re-uses the returned object as a work array, then calls again: the second result must
+            # not depend on that (an operator handing out its internal state would)
+            y0_keep = L.unflat(op.range, L.flat(op.range, y0))
+            if not L.is_field(op.range) and y0 is not x:
+                try:
+                    y0 *= 3.0
+                    y0 += op.range.one() if hasattr(op.range, 'one') else 0
+                except Exception:
+                    pass
+            if xbytes(op.domain, x) != xb:      # the result aliases the input: restore x for the second call
+                x = L.unflat(op.domain, np.frombuffer(xb, dtype=complex))
             y1 = op(x)
-            ev['dist'] = dist(op, y1, y0, unit)
+            ev['dist'] = dist(op, y1, y0_keep, unit)
+            y0 = y0_keep
         except Exception as ex:
             ev['raised'] = type(ex).__name__
         emit(ev, '')
